@@ -59,10 +59,10 @@ func genC09(t *rapid.T) C09Case {
 	n := rapid.IntRange(2, lim.maxBlocks+6).Draw(t, "nsteps")
 	branch := 0
 	for i := 0; i < n; i++ {
-		op := rapid.SampledFrom([]string{"block", "block", "block", "verify", "ingest", "prune", "undo"}).Draw(t, "op")
+		op := rapid.SampledFrom([]string{"block", "block", "block", "verify", "ingest", "vpp", "prune", "undo"}).Draw(t, "op")
 		live := f.Live()
 		switch {
-		case (op == "verify" || op == "ingest") && len(live) == 0:
+		case (op == "verify" || op == "ingest" || op == "vpp") && len(live) == 0:
 			op = "block"
 		case op == "prune" && len(tracked) == 0:
 			op = "block"
@@ -86,7 +86,7 @@ func genC09(t *rapid.T) C09Case {
 			}
 			bb := b
 			c.Steps = append(c.Steps, C09Step{Op: "block", B: &bb})
-		case "verify", "ingest":
+		case "verify", "ingest", "vpp":
 			switch rapid.IntRange(0, 11).Draw(t, "odd-call") {
 			case 0: // empty arguments: legal, must change nothing
 				c.Steps = append(c.Steps, C09Step{Op: op})
@@ -237,17 +237,20 @@ func runC09(c C09Case) *Result {
 			if err := check(fmt.Sprintf("step %d after Modify {del %v, add %d, remember %v}", i, b.Del, b.Add, b.Rem)); err != nil {
 				return res.failf("%v", err)
 			}
-		case "verify", "ingest":
+		case "verify", "ingest", "vpp":
 			for _, s := range st.Set {
 				if s < 0 || s >= len(f.Dead) || f.Dead[s] {
 					return res.failf("case error: step %d names slot %d which is not live", i, s)
 				}
 			}
 			hs := f.HashesOf(st.Set)
-			proof := f.View().Proof(hs)
+			vw := f.View()
+			proof := vw.Proof(hs)
 			var err error
 			if st.Op == "verify" {
 				err = in.M.Verify(cloneHashes(hs), cloneProof(proof), true)
+			} else if st.Op == "vpp" {
+				err = vppRemember(in.M, vw, proof.Targets, hs)
 			} else {
 				err = in.M.Ingest(cloneHashes(hs), cloneProof(proof))
 				special = special || sawDelBlock
